@@ -80,25 +80,66 @@ func main() {
 	}
 	rn.corpus()
 	start := time.Now()
-	if rn.st {
+	// LF_ONLY=<phase>,<phase>: run only the named phases (development / narrowing down a replay)
+	want := func(name string) bool {
+		only := os.Getenv("LF_ONLY")
+		if only == "" {
+			return true
+		}
+		for _, w := range strings.Split(only, ",") {
+			if w == name {
+				return true
+			}
+		}
+		return false
+	}
+	if rn.st && want("protocol") {
 		rn.protocolPhase()
 	}
 	if prop == "C06" {
-		rn.eintrPhase()
-		rn.mutexPhase()
-		rn.kernelModelPhase()
-		rn.stressPhase()
-		rn.scenarioPhase([]string{"inherit-write", "inherit-read", "quietread-write", "quietread-create", "handover-edit", "handover-mutex",
-			"exclhold-read", "exclhold-edit", "exclhold-mutex", "exclhold-open", "exclhold-read+append", "exclhold-edit+sync",
-			"fifohold-openfile", "fifohold-edit", "mutexperm-0444"})
+		if want("eintr") {
+			rn.eintrPhase()
+		}
+		if want("mutex") {
+			rn.mutexPhase()
+		}
+		if want("release") {
+			rn.releasePhase()
+		}
+		if want("kmodel") {
+			rn.kernelModelPhase()
+		}
+		if want("stress") {
+			rn.stressPhase()
+		}
+		if want("scenario") {
+			rn.scenarioPhase([]string{"inherit-write", "inherit-read", "quietread-write", "quietread-create", "handover-edit", "handover-mutex",
+				"exclhold-read", "exclhold-edit", "exclhold-mutex", "exclhold-open", "exclhold-read+append", "exclhold-edit+sync",
+				"fifohold-openfile", "fifohold-edit", "mutexperm-0444"})
+		}
 	} else {
-		if rn.st {
+		if want("direct") {
+			rn.directPhase()
+		}
+		if rn.st && want("fault") {
 			rn.faultPhase()
 			rn.writeFaultPhase()
-			rn.fsizePhase()
 		}
-		rn.histPhase()
-		rn.scenarioPhase([]string{"quietread-write", "quietread-create"})
+		if want("fsize") {
+			if rn.st {
+				rn.fsizePhase()
+			}
+			rn.limitPhase()
+		}
+		if rn.st && want("persist") {
+			rn.persistPhase()
+		}
+		if want("hist") {
+			rn.histPhase()
+		}
+		if want("scenario") {
+			rn.scenarioPhase([]string{"quietread-write", "quietread-create"})
+		}
 	}
 	rn.modelNotes()
 	res.Notes = append(res.Notes, fmt.Sprintf("runner phases took %.1fs", time.Since(start).Seconds()),
